@@ -641,6 +641,16 @@ func Run(cfg hx.Config) error {
 		runtime.GOMAXPROCS(old)
 		r.Count(fmt.Sprintf("free:gomaxprocs=%d", procs))
 	}
+	// the callers of the lock sources: Libindex.Index, Manager.Run, Updater.Run
+	ncall := cfg.N(60, 1500)
+	modes := []string{"index", "manager", "updater"}
+	for i := 0; i < ncall*len(modes) && !r.Stop(); i++ {
+		procs := 1 + rnd.Intn(8)
+		old := runtime.GOMAXPROCS(procs)
+		callerScenario(r, rnd, modes[i%len(modes)], 25+rnd.Intn(50))
+		runtime.GOMAXPROCS(old)
+	}
+	r.Notes["caller_scenarios_per_mode"] = ncall
 	time.Sleep(50 * time.Millisecond)
 	if after := runtime.NumGoroutine(); after > before+2 {
 		r.Fail("", fmt.Sprintf("goroutines-leaked before=%d after=%d", before, after))
